@@ -66,6 +66,7 @@ func (c Context) Update(other Context) Context {
 type ExecutionContext struct {
 	template   *Template
 	macroDepth int
+	nesting    int // depth of this execution within nested executions (include, ssi)
 
 	// nodeState holds the per-execution state of stateful tag nodes (like
 	// cycle, ifchanged). It is shared between all ExecutionContexts of one
@@ -106,6 +107,7 @@ func NewChildExecutionContext(parent *ExecutionContext) *ExecutionContext {
 		Private:    make(Context),
 		Autoescape: parent.Autoescape,
 		nodeState:  parent.nodeState,
+		nesting:    parent.nesting,
 	}
 	newctx.Shared = parent.Shared
 
